@@ -582,6 +582,7 @@ pub fn cmd_check(args: &Args) -> i32 {
     // ---- minimise, write replay files, verify in a fresh process --------------
     let known = load_known();
     let mut violations = 0u64;
+    let mut not_reproduced = 0u64;
     let mut known_printed: Vec<String> = Vec::new();
     let mut violation_records: Vec<J> = Vec::new();
     let replay_dir = format!("{}/replays", verif_root());
@@ -609,8 +610,11 @@ pub fn cmd_check(args: &Args) -> i32 {
         match exec_trace_in_child(&sh.trace, Duration::from_secs(150)) {
             ChildOutcome::Fail(f2, _) if f2.sig() == sig => {}
             other => {
-                eprintln!("HARNESS: replay of {} did not reproduce the failure ({:?})", path, other);
-                return 2;
+                // never report what does not replay; remember it as a harness problem
+                eprintln!("HARNESS: replay of {} did not reproduce the failure ({:?}); not reported as a violation", path, other);
+                not_reproduced += 1;
+                let _ = std::fs::remove_file(&path);
+                continue;
             }
         }
         if let Some(k) = known.iter().find(|k| known_match(k, &prop, &sh.failure)) {
@@ -748,6 +752,10 @@ pub fn cmd_check(args: &Args) -> i32 {
     );
     if violations > 0 {
         return 1;
+    }
+    if not_reproduced > 0 {
+        eprintln!("HARNESS: {} failure(s) did not replay (nondeterminism: undefined behaviour in the code under test, or a harness defect)", not_reproduced);
+        return 2;
     }
     if n_runs == 0 && known_printed.is_empty() && pool.crashes.is_empty() {
         eprintln!("HARNESS: no run was executed");
